@@ -74,14 +74,14 @@ def action_call(fn):
                 "::lexgen_util::SemanticActionResult::Return(res) => { self.0.__state = self.0.__initial_state; "
                 "let (match_start, match_end) = self.match_loc(); self.0.reset_match(); "
                 "return Some(match res { Ok(tok) => Ok((match_start, tok, match_end)), "
-                "Err(err) => Err(::lexgen_util::LexerError { location: match_start, "
-                "kind: ::lexgen_util::LexerErrorKind::Custom(err), }), }); } }")
+                "Err(err2) => Err(::lexgen_util::LexerError { location: match_start, "
+                "kind: ::lexgen_util::LexerErrorKind::Custom(err2), }), }); } }")
 
 
 FRAG_NEXT_HEAD = frag("fn next(&mut self) -> Option<Self::Item> { loop { if self.0.__done { return None; } "
                       "match self.0.__state {")
 FRAG_NEXT_TAIL = frag("} } }")
-FRAG_FAIL_BT = frag("match self.0.backtrack() { Err(err) => { self.reset_match(); return Some(Err(err)) } "
+FRAG_FAIL_BT = frag("match self.0.backtrack() { Err(err1) => { self.reset_match(); return Some(Err(err1)) } "
                     "Ok(semantic_action) =>") + action_call("semantic_action") + frag(", }")
 FRAG_FAIL_ERR = frag("{ let location = self.match_loc().0; self.reset_match(); self.0.__state = 0; "
                      "self.0.__initial_state = 0; return Some(Err(::lexgen_util::LexerError { location, "
@@ -108,8 +108,45 @@ class P:
     def peek(self, k=0):
         return self.t[self.i + k] if self.i + k < len(self.t) else None
 
+    # names the templates bind locally (patterns, `let`, closure parameters): a consistent renaming of them is not
+    # a different program, so they are matched up to one bijection per generated lexer
+    LOCALS = {"err1", "err2", "semantic_action", "res", "tok", "match_start", "match_end", "location", "char", "x"}
+    SAME_NAME_OK = {"err1", "err2"}      # bound in disjoint scopes: may (and in the real template do) share a name
+    RESERVED = {"self", "Some", "None", "Ok", "Err", "true", "false", "match", "if", "else", "return", "let", "loop",
+                "fn", "mut", "usize", "state", "input", "contains", "next", "backtrack", "clone"}
+    renames = None          # shared dict template name -> actual name (set by the Translator)
+
+    def same(self, e, a):
+        if e == a:
+            if self.renames is None or e not in self.LOCALS:
+                return True
+            if e in self.renames:
+                return self.renames[e] == a
+            if any(v == a and not (k in self.SAME_NAME_OK and e in self.SAME_NAME_OK) for k, v in self.renames.items()):
+                return False
+            self.renames[e] = a
+            return True
+        if self.renames is None or e not in self.LOCALS or a is None or a in self.RESERVED \
+                or not re.match(r"^[a-z_][a-z0-9_]*$", a):
+            return False
+        if e in self.renames:
+            return self.renames[e] == a
+        if any(v == a and not (k in self.SAME_NAME_OK and e in self.SAME_NAME_OK) for k, v in self.renames.items()):
+            return False
+        self.renames[e] = a
+        return True
+
     def at(self, seq):
-        return self.t[self.i:self.i + len(seq)] == seq
+        if self.renames is None:
+            return self.t[self.i:self.i + len(seq)] == seq
+        if self.i + len(seq) > len(self.t):
+            return False
+        saved = dict(self.renames)
+        ok = all(self.same(e, self.t[self.i + k]) for k, e in enumerate(seq))
+        if not ok:
+            self.renames.clear()
+            self.renames.update(saved)
+        return ok
 
     def expect(self, seq, what=""):
         if not self.at(seq):
@@ -148,7 +185,19 @@ class Translator:
     def __init__(self, text, lexer):
         self.lexer = lexer
         self.toks = tokenize(text)
+        self.renames = {}
         self.tables = self.find_tables()
+
+    def cursor(self, i):
+        p = P(self.toks, i)
+        p.renames = self.renames
+        return p
+
+    def is_guard_binder(self, p):
+        """an identifier followed by `if`: the binder of a guarded arm (`x` in the template)"""
+        tok = p.peek()
+        return tok is not None and p.peek(1) == "if" and (tok == self.renames.get("x", "x") or
+                                                           ("x" not in self.renames and re.match(r"^[a-z_][a-z0-9_]*$", tok)))
 
     # ---- static <L>_RANGE_TABLE_n: [(char, char); k] = [ ('a', 'b'), .. ];
     def find_tables(self):
@@ -195,7 +244,7 @@ class Translator:
             return ("table", list(self.tables[name]))
         pairs = []
         while True:
-            if p.peek() == "x":
+            if p.peek() == self.renames.get("x", "x"):
                 p.expect(["x", "=="])
                 c = char_value(p.take())
                 pairs.append((c, c))
@@ -256,7 +305,7 @@ class Translator:
                 p.expect(["}"])
                 p.opt(",")
                 break
-            if tok == "x":
+            if self.is_guard_binder(p):
                 p.expect(["x", "if"])
                 g = self.guard(p)
                 p.expect(["=>", "{"])
@@ -301,7 +350,7 @@ class Translator:
             return ("act", a)
         if p.peek() == "if":
             # right-context test of test_right_ctxs, or the set_accepting_state chain in front of a state
-            q = P(p.t, p.i + 1)
+            q = self.cursor(p.i + 1)
             self.ctx_cond(q)
             if q.peek() == "{" and q.t[q.i + 1:q.i + 1 + len(FRAG_SET_ACC)] == FRAG_SET_ACC:
                 return self.state(p)
@@ -323,7 +372,7 @@ class Translator:
             raise Untranslatable("`fn next` with the expected head (loop / __done test / match self.0.__state) not found")
         if self.find(FRAG_NEXT_HEAD, i + 1) >= 0:
             raise Untranslatable("more than one `fn next`")
-        p = P(self.toks, i + len(FRAG_NEXT_HEAD))
+        p = self.cursor(i + len(FRAG_NEXT_HEAD))
         arms = []
         while p.peek() != "}":
             tok = p.take()
@@ -343,7 +392,7 @@ class Translator:
         i = self.find(head)
         if i < 0:
             return None
-        p = P(self.toks, i + len(head))
+        p = self.cursor(i + len(head))
         out = []
         while p.peek() != "}":
             p.expect(["%sRule" % self.lexer, "::"])
@@ -381,7 +430,7 @@ class Translator:
                 dflt = self.cxact(p)
                 p.opt(",")
                 break
-            if tok == "x":
+            if self.is_guard_binder(p):
                 p.expect(["x", "if"])
                 g = self.guard(p)
                 p.expect(["=>"])
@@ -407,7 +456,7 @@ class Translator:
             i = self.find(head)
             if i < 0:
                 break
-            p = P(self.toks, i + len(head))
+            p = self.cursor(i + len(head))
             arms = []
             while p.peek() != "}":
                 tok = p.take()
